@@ -206,7 +206,14 @@ type Client struct {
 	mu     sync.Mutex
 	raw    bytes.Buffer
 	rerr   error
+	gate   sync.Mutex // held while the client is paused (a slow consumer: the broker's writes to it block)
 }
+
+// Pause stops the client from reading its socket (after at most one more packet): a slow consumer.
+func (c *Client) Pause() { c.gate.Lock() }
+
+// Resume lets the client read again.
+func (c *Client) Resume() { c.gate.Unlock() }
 
 type teeReader struct {
 	r io.Reader
@@ -234,6 +241,8 @@ func (b *Broker) Attach(name string) *Client {
 	go func() {
 		r := teeReader{a, cl}
 		for {
+			cl.gate.Lock()
+			cl.gate.Unlock()
 			p, err := packets.ReadPacket(r)
 			if err != nil {
 				cl.mu.Lock()
